@@ -536,8 +536,12 @@ def run(repo: Repo, rep: Report, tier: str) -> None:
     n += rule_z(repo, rep)
     n += rule_purity(repo, rep)
     # the errors of successive uses are independent: the variates come from the generator that advances across calls
-    from ..speciallint import lint_rng_discipline
+    from ..speciallint import lint_falsy_default, lint_rng_discipline
 
+    for cname in ("BinarySymmetricChannel", "BinaryErasureChannel", "BinaryZChannel"):
+        n += lint_falsy_default(rep, repo.func(DG, f"{cname}.__init__"), "PARAM")
+    for f_ in repo.module(DG).functions.values():
+        n += lint_falsy_default(rep, f_, "PARAM")
     for cname in ("BinarySymmetricChannel", "BinaryErasureChannel", "BinaryZChannel"):
         ci_ = repo.cls(DG, cname)
         for m_ in ci_.methods.values():
